@@ -883,7 +883,7 @@ def replay(case):
         a = observe.cls_of(fam)(v).scores()
         decimal.setcontext(decimal.Context(prec=i["ctx"][0], rounding=getattr(decimal, i["ctx"][1])))
         b = observe.cls_of(fam)(v).scores()
-        return a != b, "default %r, under context %r" % (a, b)
+        return repr(a) != repr(b), "default %r, under context %r" % (a, b)
     if k == "decimal_ctx":
         p, r = case["input"]
         decimal.setcontext(decimal.Context(prec=p, rounding=getattr(decimal, r)))
